@@ -635,6 +635,8 @@ fn run_case(c: &[u64]) -> (Vec<u64>, Vec<u64>) {
 // the cooperative budget the step names). Nothing is spawned; wake-ups play no part.
 
 const SCHED_MARK: u64 = 9001;
+/// Budget value of a Connection poll that runs under `tokio::task::unconstrained`.
+const UNLIMITED: u64 = 1_000_000;
 
 type SendFut = Pin<Box<dyn Future<Output = Result<(), ()>> + Send>>;
 
@@ -828,8 +830,8 @@ fn parse_sched(c: &[u64]) -> Option<([u64; 5], [u64; 5], Vec<Vec<u64>>)> {
         let l = match tag {
             0 => 4,
             1 => 5,
-            2 | 3 | 5 => 3,
-            4 | 6 | 7 | 8 | 11 => 2,
+            2 | 3 | 4 | 5 => 3,
+            6 | 7 | 8 | 11 => 2,
             9 => 4,
             10 => 1,
             _ => return None,
@@ -849,6 +851,9 @@ fn parse_sched(c: &[u64]) -> Option<([u64; 5], [u64; 5], Vec<Vec<u64>>)> {
             }
         }
         if tag == 5 && a[2] > 128 {
+            return None;
+        }
+        if tag == 4 && a[2] > 128 && a[2] != UNLIMITED {
             return None;
         }
         steps.push(a);
@@ -997,12 +1002,39 @@ async fn run_steps(
                 out.push(r);
             }
             4 => {
-                let e = &mut w.eps[x];
-                if let Some(f) = e.conn.as_mut() {
-                    if poll_once(f).is_some() {
-                        e.conn = None;
-                        e.shutdown = None;
+                // one poll of the Connection task: unconstrained (budget UNLIMITED) or under a cooperative
+                // budget of a[2] <= 128 operations
+                let b = a[2];
+                let mut done = false;
+                if w.eps[x].conn.is_some() {
+                    if b == UNLIMITED {
+                        done = poll_once(w.eps[x].conn.as_mut().unwrap()).is_some();
+                    } else {
+                        tokio::task::yield_now().await;
+                        for _ in 0..(128 - b.min(128)) {
+                            tokio::task::coop::consume_budget().await;
+                        }
+                        let waker = futures::task::noop_waker();
+                        let mut cx = Context::from_waker(&waker);
+                        done = w.eps[x].conn.as_mut().unwrap().as_mut().poll(&mut cx).is_ready();
+                        tokio::task::yield_now().await;
+                        // close_connection is atomic in the model: a task that has begun to close (its
+                        // outbound substream is shut down) and ran out of budget is polled until it is done
+                        let closing = w.pipes.as_ref().map(|p| p[x].lock().unwrap().wclosed).unwrap_or(false);
+                        if !done && closing {
+                            for _ in 0..8 {
+                                if poll_once(w.eps[x].conn.as_mut().unwrap()).is_some() {
+                                    done = true;
+                                    break;
+                                }
+                            }
+                        }
                     }
+                }
+                let e = &mut w.eps[x];
+                if done {
+                    e.conn = None;
+                    e.shutdown = None;
                 }
                 out.push(if e.conn.is_some() { 0 } else { 1 });
             }
@@ -1157,6 +1189,15 @@ impl SGen {
         }
     }
 
+    /// Budget of a Connection poll: mostly unconstrained, else what is left of tokio's 128 operations.
+    fn conn_budget(&mut self) -> u64 {
+        if self.rng.chance(60) {
+            UNLIMITED
+        } else {
+            self.rng.pick(&[0u64, 1, 1, 2, 3, 5, 9, 128])
+        }
+    }
+
     fn send(&mut self, x: u64, mode: u64) -> Vec<u64> {
         self.tag += 1;
         let m = if self.single { self.only_mode[x as usize] } else { mode };
@@ -1193,7 +1234,8 @@ impl SGen {
             let id = if self.rng.chance(70) { p[0] } else { p[self.rng.below(p.len() as u64) as usize] };
             self.queue.push_back(vec![2, x, id]);
             if self.rng.chance(50) {
-                self.queue.push_back(vec![4, x]);
+                let b = self.conn_budget();
+                self.queue.push_back(vec![4, x, b]);
             }
             return;
         }
@@ -1237,10 +1279,11 @@ impl SGen {
                 }
             }
             49..=66 => {
+                let b = self.conn_budget();
                 if self.starve.map(|(sx, _)| sx == x).unwrap_or(false) {
-                    self.queue.push_back(vec![4, 1 - x]);
+                    self.queue.push_back(vec![4, 1 - x, b]);
                 } else {
-                    self.queue.push_back(vec![4, x]);
+                    self.queue.push_back(vec![4, x, b]);
                 }
             }
             67..=80 => {
@@ -1269,8 +1312,8 @@ impl SGen {
             _ => {
                 // a fair stretch: both Connections and both users run for a while
                 for _ in 0..self.rng.range(2, 8) {
-                    self.queue.push_back(vec![4, 1]);
-                    self.queue.push_back(vec![4, 0]);
+                    self.queue.push_back(vec![4, 1, UNLIMITED]);
+                    self.queue.push_back(vec![4, 0, UNLIMITED]);
                     self.queue.push_back(vec![5, self.rng.below(2), 128]);
                 }
             }
